@@ -90,6 +90,10 @@ func buildChunks(lines []string, tail int) (*ChunkList, []*Chunk) {
 }
 
 func (s scanSetup) pattern(cache *ChunkCache, cacheable bool) *Pattern {
+	return s.patternFor(cache, cacheable, s.query, nil)
+}
+
+func (s scanSetup) patternFor(cache *ChunkCache, cacheable bool, query string, denylist map[int32]struct{}) *Pattern {
 	fa := algo.FuzzyMatchV2
 	if s.o.Algo == "v1" {
 		fa = algo.FuzzyMatchV1
@@ -101,7 +105,7 @@ func (s scanSetup) pattern(cache *ChunkCache, cacheable bool) *Pattern {
 	case oracle.CaseRespect:
 		cm = CaseRespect
 	}
-	return BuildPattern(cache, map[string]*Pattern{}, !s.o.Exact, fa, s.o.Extended, cm, !s.o.Literal, s.forward, s.withPos, cacheable, nil, Delimiter{}, revision{}, []rune(s.query), nil)
+	return BuildPattern(cache, map[string]*Pattern{}, !s.o.Exact, fa, s.o.Extended, cm, !s.o.Literal, s.forward, s.withPos, cacheable, nil, Delimiter{}, revision{}, []rune(query), denylist)
 }
 
 func lessRank(a, b Result, tac bool) bool {
@@ -171,11 +175,22 @@ func TestVerifC04_ScanMerge(t *testing.T) {
 		sortCriteria = crit
 		algo.Init(s.o.Scheme)
 		_, chunks := buildChunks(s.lines, s.tail)
+		// lines taken off the list with the exclude action (in one case out of three)
+		var denylist map[int32]struct{}
+		if len(s.lines) > 0 && rapid.IntRange(0, 2).Draw(t, "excluded") == 0 {
+			denylist = map[int32]struct{}{}
+			for _, i := range rapid.SliceOfN(rapid.IntRange(0, len(s.lines)-1), 1, 4).Draw(t, "excludedLines") {
+				denylist[int32(i)] = struct{}{}
+			}
+		}
 		// oracle: every item in isolation, fresh pattern, fresh slab
 		var want []Result
 		iso := s.pattern(NewChunkCache(), false)
 		for _, ch := range chunks {
 			for i := 0; i < ch.count; i++ {
+				if _, gone := denylist[ch.items[i].Index()]; gone {
+					continue
+				}
 				single := *vItem(ch.items[i].text.ToString(), ch.items[i].Index())
 				if r, _, _ := iso.MatchItem(&single, s.withPos, util.MakeSlab(slab16Size, slab32Size)); r != nil {
 					rr := *r
@@ -210,12 +225,24 @@ func TestVerifC04_ScanMerge(t *testing.T) {
 			m0 := NewMatcher(cache, nil, !s.sort, s.tac, util.NewEventBox(), revision{})
 			m0.partitions = parts
 			m0.slab = make([]*util.Slab, parts)
-			m0.scan(MatchRequest{chunks: chunks, pattern: s.pattern(cache, true), sort: !s.sort})
+			m0.scan(MatchRequest{chunks: chunks, pattern: s.patternFor(cache, true, s.query, denylist), sort: !s.sort})
+		}
+		// typing: the query without its last (or first) character was searched just before, sharing the chunk cache
+		priorShorter := rapid.IntRange(0, 2).Draw(t, "priorSearchWithShorterQuery") == 0
+		if rs := []rune(s.query); priorShorter && len(rs) > 1 {
+			shorter := string(rs[:len(rs)-1])
+			if rapid.Bool().Draw(t, "typedInFront") {
+				shorter = string(rs[1:])
+			}
+			m0 := NewMatcher(cache, nil, s.sort, s.tac, util.NewEventBox(), revision{})
+			m0.partitions = parts
+			m0.slab = make([]*util.Slab, parts)
+			m0.scan(MatchRequest{chunks: chunks, pattern: s.patternFor(cache, true, shorter, denylist), sort: s.sort})
 		}
 		m := NewMatcher(cache, nil, s.sort, s.tac, util.NewEventBox(), revision{})
 		m.partitions = parts
 		m.slab = make([]*util.Slab, parts)
-		pat := s.pattern(m.cache, true)
+		pat := s.patternFor(m.cache, true, s.query, denylist)
 		merger, cancelled := m.scan(MatchRequest{chunks: chunks, pattern: pat, sort: s.sort})
 		if cancelled || merger == nil {
 			t.Fatalf("%s: scan cancelled without a reset", s)
@@ -228,7 +255,7 @@ func TestVerifC04_ScanMerge(t *testing.T) {
 		}
 		nt := len(want) >= 2 && ties && (nonEmptyParts >= 2 || merger.pass)
 		vstat.Case("C04/scan-merge", s.String()+fmt.Sprint(parts, probe, s.lines), nt, fmt.Sprintf("chunks=%d", imin(len(chunks), 5)), fmt.Sprintf("partitions=%d", parts), "probe="+probe,
-			fmt.Sprintf("tac=%v", s.tac), fmt.Sprintf("sorted=%v", sorted), fmt.Sprintf("pass=%v", merger.pass), fmt.Sprintf("first_chunk_partial=%v", len(chunks) > 1 && chunks[0].count < chunkSize), fmt.Sprintf("prior_opposite_sort=%v", priorOpposite))
+			fmt.Sprintf("tac=%v", s.tac), fmt.Sprintf("sorted=%v", sorted), fmt.Sprintf("pass=%v", merger.pass), fmt.Sprintf("first_chunk_partial=%v", len(chunks) > 1 && chunks[0].count < chunkSize), fmt.Sprintf("prior_opposite_sort=%v", priorOpposite), fmt.Sprintf("prior_shorter_query=%v", priorShorter), fmt.Sprintf("excluded=%v", denylist != nil))
 		if nt && vstat.WantSample("C04/scan-merge") {
 			vstat.Sample("C04/scan-merge", map[string]interface{}{"setup": s.String(), "partitions": parts, "probe": probe, "results": len(want)})
 		}
